@@ -109,6 +109,18 @@ def run_case(case):
             exp = np.asarray(getattr(ref, m)(arg), dtype=float)
             if not np.allclose(got, exp, rtol=1e-14, atol=0):
                 bad("evaluation", {"method": m, "got": got, "expected": exp, "fixed": fixed}, stage="evaluate")
+        # keyword order reversed: the f_ keywords BEFORE the plain ones (python keeps the caller's keyword order)
+        count["checks"] += 1
+        try:
+            instr = cls(**fkw, **{n: TRUE[fam][n] for n in names})
+            for n, v in fixed.items():
+                if instr.parameters[n] != v:
+                    bad("construction", {"param": n, "fixed": v, "got": instr.parameters[n], "style": "f_keywords_first"}, stage="parameters")
+            for n in free:
+                if instr.parameters[n] != TRUE[fam][n]:
+                    bad("construction", {"param": n, "free_value": TRUE[fam][n], "got": instr.parameters[n], "style": "f_keywords_first"}, stage="parameters")
+        except Exception as e:
+            bad("construction", {"style": "f_keywords_first", "type": type(e).__name__, "msg": str(e)[:120]}, stage="parameters")
         # the same instance built with POSITIONAL plain values (decoys for the fixed ones) next to the f_ keywords
         try:
             instp = cls(*[TRUE[fam][n] for n in names], **fkw)
